@@ -102,6 +102,7 @@ func Copy(ctx context.Context, srcRoot, src, dstRoot, dst string, opts ...Opt) e
 		modeSet = &ms
 	}
 
+	dstArg := dst
 	dst, err := fs.RootPath(dstRoot, filepath.Clean(dst))
 	if err != nil {
 		return err
@@ -126,6 +127,11 @@ func Copy(ctx context.Context, srcRoot, src, dstRoot, dst string, opts ...Opt) e
 
 	for _, src := range srcs {
 		srcFollowed, err := rootPath(srcRoot, src, ci.FollowLinks)
+		if err != nil {
+			return err
+		}
+		// an earlier match may have put a symlink on the destination path: resolve it inside the root again
+		dst, err := fs.RootPath(dstRoot, filepath.Clean(dstArg))
 		if err != nil {
 			return err
 		}
